@@ -75,7 +75,7 @@ Proof. exact submit_values. Qed.
                   refuted below as what their names promise (TestFlags pins them there);
      SMS-SUBMIT   MessageType = SMS-SUBMIT, RejectDuplicates = TP-RD (bit 2), ValidityPeriodFormat = TP-VPF (bits 4..3),
                   StatusReportRequest = TP-SRR (bit 5), UserDataHeaderIndicator = TP-UDHI (bit 6), ReplyPath = TP-RP
-                  (bit 7) - true since fix 558ac8c; before it ReplyPath and StatusReportRequest were swapped. *)
+                  (bit 7) - true since fix 922f91c; before it ReplyPath and StatusReportRequest were swapped. *)
 Theorem C19_deliver_flags :
   forall t : s_deliver,
     deliver_wf t -> addr_ok (d_oa t) ->
@@ -110,7 +110,7 @@ Theorem C19_deliver_old_flag_fields_refuted :
     flag_get DF fl "ReplyPath"%string = 0 /\ flag_get DF fl "UDHIndicator"%string = 0 /\
     flag_get DF fl "TPRP"%string = 1 /\ flag_get DF fl "TPUDHI"%string = 1.
 Proof. exact deliver_old_flag_fields_refuted. Qed.
-(* the repaired defect (fix 558ac8c): with the field order before it, first octet 0x21 (TP-SRR only) shows ReplyPath *)
+(* the repaired defect (fix 922f91c): with the field order before it, first octet 0x21 (TP-SRR only) shows ReplyPath *)
 Theorem C19_submit_flag_names_legacy_refuted :
   flag_get submit_fields_legacy (unmarshal_flags submit_fields_legacy 33 0) "ReplyPath"%string = 1 /\
   flag_get submit_fields_legacy (unmarshal_flags submit_fields_legacy 33 0) "StatusReportRequest"%string = 0 /\
